@@ -97,6 +97,15 @@ def replay_spec_cases(chk, cases):
             ds = o[1]
             ident = lambda row: next((i + 1 for i, x in enumerate(rows) if x is row), 0)
             b, e, at = ident(ds.begin), ident(ds.end), ident(ds.at_range)
+            # the result says what was asked (target height, look angle: the argument, or the shot's when omitted), and asking
+            # again - after other questions to the same result - gives the same answer
+            if ds.target_height.raw_value != height.raw_value or ds.look_angle.raw_value != 0.0:
+                chk.violation("C16.ResultFields", key, {"case": c, "target_height": repr(ds.target_height), "look_angle": repr(ds.look_angle)})
+            impl.outcome(hr.danger_space, U.Foot(float(max(0, n - 2))), U.Foot(float(h + 1)), U.Degree(10))
+            o_again = impl.outcome(hr.danger_space, U.Foot(r), height, None)
+            if o_again[0] != "ok" or (ident(o_again[1].begin), ident(o_again[1].end), ident(o_again[1].at_range)) != (b, e, at) \
+                    or o_again[1].look_angle.raw_value != shot.look_angle.raw_value:
+                chk.violation("C16.DependsOnEarlierQuestions", key, {"case": c, "first": [b, e, at], "again": repr(o_again[1])[:200]})
             if at != t:
                 chk.violation("C16.WrongTargetRow", key, {"case": c, "got_at": at})
             if (b, e) not in adm:
